@@ -262,7 +262,7 @@ func runC01(c *kit.Ctx) {
 		}
 	}
 	check("after funding")
-	nB := c.N(24, 30)
+	nB := c.N(28, 35)
 	for i := 0; i < nB; i++ {
 		u := take()
 		if u == nil {
@@ -272,7 +272,11 @@ func runC01(c *kit.Ctx) {
 		fee := minFee + r.Int63n(500)
 		var vec []int64
 		kind := ""
-		switch i % 6 {
+		dupIn := false
+		switch i % 7 {
+		case 6: // the same outpoint listed twice (different Sequence) and counted twice
+			vec, kind = []int64{2*inVal - fee}, "dup-outpoint-diff-sequence"
+			dupIn = true
 		case 0:
 			vec, kind = []int64{inVal - fee}, "honest"
 		case 1:
@@ -295,6 +299,12 @@ func runC01(c *kit.Ctx) {
 			ver = common2.TxVersionDefault
 		}
 		tx := node.Transfer([]node.UTXORef{u.ref}, os, ver)
+		if dupIn {
+			ins := tx.Inputs()
+			ins = append(ins, &common2.Input{Previous: ins[0].Previous, Sequence: ins[0].Sequence + 1})
+			tx.SetInputs(ins)
+			node.SignStd(tx, u.ref.Owner)
+		}
 		creates := sumBig(vec).Cmp(big.NewInt(inVal)) > 0
 		neg := false
 		for _, v := range vec {
@@ -302,7 +312,7 @@ func runC01(c *kit.Ctx) {
 				neg = true
 			}
 		}
-		viaBlock := (i/6)%2 == 1
+		viaBlock := (i/7)%2 == 1
 		c.Begin("B case %d kind=%s viaBlock=%v vec=%v", i, kind, viaBlock, vec)
 		c.Case(fmt.Sprintf("B:%s:%v:%v", kind, vec, viaBlock), !neg)
 		accepted := false
@@ -322,7 +332,12 @@ func runC01(c *kit.Ctx) {
 			for _, v := range vec {
 				wsum += v
 			}
-			b, err := nd.Assemble(node.BlockSpec{Txs: []interfaces.Transaction{tx}, Fees: common.Fixed64(inVal - wsum)})
+			b, err := nd.Assemble(node.BlockSpec{Txs: []interfaces.Transaction{tx}, Fees: common.Fixed64(func() int64 {
+				if dupIn {
+					return 2*inVal - wsum
+				}
+				return inVal - wsum
+			}())})
 			if err == nil {
 				h0 := nd.Height()
 				_, _, perr := nd.Process(b)
@@ -332,7 +347,7 @@ func runC01(c *kit.Ctx) {
 				}
 			}
 		}
-		if i < 6 && c.Shard == 0 {
+		if i < 7 && c.Shard == 0 {
 			c.Sample(map[string]interface{}{"kind": "B:" + kind, "spent_value": inVal, "outputs": vec, "via_block": viaBlock, "accepted": accepted})
 		}
 		if accepted {
